@@ -370,30 +370,34 @@ Definition peek (s : mstate) (t : nat) (c : mch) : option mev :=
 
 (* ---- D3: the source skeleton the model stands for: per Rust function, the ordered facade
    operations (variable, operation, orderings), built from the constants used by `mstep` *)
-Inductive fn := FnTryAcquire | FnLockSlow | FnUnlock | FnFixFlags | FnWakeNext | FnFutPoll | FnFutFinish
-              | FnFutDrop | FnListLock | FnListUnlock | FnRearm | FnMarkWoken | FnWake.
-Inductive sop := SLoad | SStore | SSwap | SCas | SFor | SFand | SPark | SUnpark | SYield | SSpin | SCall (f : fn).
+Inductive fn := FnTryAcquire | FnLock | FnLockSlow | FnLockAsync | FnTryLock | FnUnlock | FnFixFlags | FnWakeNext
+              | FnGuardDrop | FnFutPoll | FnFutFinish | FnFutDrop | FnListLock | FnListUnlock | FnRearm
+              | FnMarkWoken | FnWake.
+Inductive sop := SLoad | SStore | SSwap | SCas | SCasWeak | SFor | SFand | SFadd | SFsub
+               | SPark | SUnpark | SYield | SSpin | SCall (f : fn).
 Inductive svar := SvState | SvLocked | SvNode | SvNone.
+
+Definition call (f : fn) : svar * sop * option ord * option ord := (SvNone, SCall f, None, None).
 
 Definition skeleton : list (fn * list (svar * sop * option ord * option ord)) :=
   [ (FnTryAcquire, [ (SvState, SLoad, Some o_ta_load, None); (SvState, SCas, Some o_ta_cas, Some o_ta_casf) ]);
-    (FnLockSlow, [ (SvNone, SCall FnTryAcquire, None, None); (SvNone, SCall FnListLock, None, None);
-                   (SvNone, SCall FnFixFlags, None, None); (SvNone, SYield, None, None);
-                   (SvNone, SCall FnListLock, None, None); (SvNone, SCall FnRearm, None, None);
+    (FnLock, [ call FnTryAcquire; call FnLockSlow ]);
+    (FnLockSlow, [ call FnTryAcquire; call FnListLock; call FnFixFlags; (SvNone, SYield, None, None);
+                   call FnListLock; call FnRearm;
                    (SvState, SFor, Some o_q_for, None); (SvState, SLoad, Some o_q_load, None);
-                   (SvState, SCas, Some o_q_cas, Some o_q_casf); (SvNone, SCall FnFixFlags, None, None);
+                   (SvState, SCas, Some o_q_cas, Some o_q_casf); call FnFixFlags;
                    (SvNode, SLoad, Some o_node_load, None); (SvNone, SPark, None, None) ]);
-    (FnUnlock, [ (SvState, SFand, Some o_unlock, None); (SvNone, SCall FnWakeNext, None, None) ]);
+    (FnLockAsync, [ call FnTryAcquire ]);
+    (FnTryLock, [ call FnTryAcquire ]);
+    (FnUnlock, [ (SvState, SFand, Some o_unlock, None); call FnWakeNext ]);
     (FnFixFlags, [ (SvState, SFand, Some o_fix, None); (SvState, SFor, Some o_fix, None) ]);
-    (FnWakeNext, [ (SvNone, SCall FnListLock, None, None); (SvNone, SCall FnFixFlags, None, None);
-                   (SvNone, SCall FnMarkWoken, None, None); (SvNone, SCall FnWake, None, None) ]);
-    (FnFutPoll, [ (SvNone, SCall FnTryAcquire, None, None); (SvNone, SCall FnFutFinish, None, None);
-                  (SvNone, SCall FnListLock, None, None); (SvNone, SCall FnRearm, None, None);
+    (FnWakeNext, [ call FnListLock; call FnFixFlags; call FnMarkWoken; call FnWake ]);
+    (FnGuardDrop, [ call FnUnlock ]);
+    (FnFutPoll, [ call FnTryAcquire; call FnFutFinish; call FnListLock; call FnRearm;
                   (SvState, SFor, Some o_q_for, None); (SvState, SLoad, Some o_q_load, None);
-                  (SvState, SCas, Some o_q_cas, Some o_q_casf); (SvNone, SCall FnFixFlags, None, None) ]);
-    (FnFutFinish, [ (SvNone, SCall FnListLock, None, None); (SvNone, SCall FnFixFlags, None, None) ]);
-    (FnFutDrop, [ (SvNone, SCall FnListLock, None, None); (SvNone, SCall FnFixFlags, None, None);
-                  (SvNode, SLoad, Some o_node_load, None); (SvNone, SCall FnWakeNext, None, None) ]);
+                  (SvState, SCas, Some o_q_cas, Some o_q_casf); call FnFixFlags ]);
+    (FnFutFinish, [ call FnListLock; call FnFixFlags ]);
+    (FnFutDrop, [ call FnListLock; call FnFixFlags; (SvNode, SLoad, Some o_node_load, None); call FnWakeNext ]);
     (FnListLock, [ (SvLocked, SSwap, Some o_ll_swap, None); (SvLocked, SLoad, Some o_ll_load, None);
                    (SvNone, SSpin, None, None) ]);
     (FnListUnlock, [ (SvLocked, SStore, Some o_ll_unlock, None) ]);
